@@ -13,6 +13,10 @@ open SV SV.Persist
 
 /-- every LevelDB write the persisters issue is synced (regenerated from the current source on every run) -/
 theorem every_write_is_synced : ∀ w ∈ Facts.leveldbWrites, w.2 = true := Facts.all_writes_sync
+/-- (regenerated fact) what is handed to goleveldb at a flush is the batch's own record list, in the order of the operations -/
+theorem every_flush_writes_the_record_list :
+    Facts.leveldbWriteArgs = ["DB.putBatch: dbBatch.batch", "putBatchAct.doPutRequest: p.batch.batch"] :=
+  Facts.writes_pass_the_record_list
 
 /-- the LevelDB state changes only by applying ONE WHOLE batch: an operation either leaves the flushed state untouched or
     replaces it by the pending batch (all acknowledged operations since the last flush, in order, including this one)
